@@ -219,6 +219,8 @@ def run_impl(case):
         obs = {"r": "N", "rules": dump_sheet(sheet), "trace": list(calls), "encoding": sheet.encoding,
                "href": sheet.href}
         n = len(calls)
+        # resolveImports runs outside a parse: log.raiseExceptions is whatever the application set (default True)
+        css_parser.log.raiseExceptions = bool(case.get("raising", True))
         try:
             flat = css_parser.resolveImports(sheet)
             obs["resolve"] = flat_dump(flat)
@@ -400,9 +402,10 @@ def compare(case, impl, model):
         return "rule tree: implementation %s, model %s" % (json.dumps(impl["rules"]), json.dumps(model["rules"]))
     if impl["encoding"] != model["encoding"]:
         return "sheet.encoding: implementation %r, model %r" % (impl["encoding"], model["encoding"])
-    if stateless(case) and not nested_kept(impl["rules"]):
-        # (an unloaded nested @import is re-requested at another URL by resolveImports -- open finding
-        #  C20-resolve-rebase-kept-import --, which the pure model of the flattening does not follow)
+    if stateless(case) and not refetch_loads(case, impl):
+        # (resolveImports re-requests every kept unloaded @import; the pure model of the flattening is exact when
+        #  those requests fail again.  They can only succeed when a nested import is re-requested at ANOTHER url
+        #  that happens to be served -- open finding C20-resolve-rebase-kept-import)
         mr = "EXC:HierarchyRequestErr" if model["resolve"] is None else model["resolve"]
         if impl["resolve"] != mr:
             return "resolveImports: implementation %s, model %s" % (json.dumps(impl["resolve"]), json.dumps(mr))
@@ -411,6 +414,30 @@ def compare(case, impl, model):
             return "fetcher used by resolveImports for kept imports: implementation %s, model %s" % (
                 want, model["resolve_fetcher"])
     return None
+
+
+def refetch_loads(case, impl):
+    """did resolveImports' re-request of a kept nested import go to ANOTHER url than the one the import was resolved to
+    when it was parsed, and is that URL served with content?  (then the re-request loads something)"""
+    from css_parser.util import urljoin
+    same = set()
+
+    def walk(rules, base):
+        for r in rules:
+            if r[0] == "import":
+                if not r[3]:
+                    try:
+                        same.add(urljoin(base, r[1]))
+                    except ValueError:
+                        pass
+                elif r[4]:
+                    walk(r[5], r[4])
+    walk(impl.get("rules", []), impl.get("href") or cwd_url())
+    for u in impl.get("resolve_calls", []):
+        bl = case["table"].get(u)
+        if u not in same and bl and any(b[0] in ("text", "bytes") for b in bl):
+            return True
+    return False
 
 
 def stateless(case):
@@ -495,7 +522,7 @@ def oracle(case, impl):
     if impl.get("default_calls"):
         out.append(("the default (network/file) fetcher was called: %r" % impl["default_calls"][:3], sig))
     absolute = bool(urllib.parse.urlparse(case["href"] or cwd_url()).scheme)
-    rebased = bool(impl.get("resolve_calls") and nested_kept(impl.get("rules", [])))
+    rebased = refetch_loads(case, impl)
     # (util.urljoin deliberately differs from RFC 3986 for relative bases: 'test.css' + '../x.css' = '../x.css';
     #  the URL statements are evaluated for absolute sheet URLs only)
     if absolute and impl["r"] != "D":
@@ -585,17 +612,21 @@ def oracle(case, impl):
             if senc != enc_norm(enc):
                 out.append(("imported sheet of %r reports encoding %r, the priority list gives %r"
                             % (it[1], senc, enc_norm(enc)), sig))
+    # the same statements at every depth (one answer per URL only)
+    if stateless(case) and documented(case) and not cyclic and absolute and not any("/../" in u for u in impl["trace"]):
+        enc_walk(case, impl["rules"], base, penc, out, sig)
     # resolveImports
     if stateless(case) and documented(case) and not cyclic:
         res = impl.get("resolve")
+        sig += " raising=%s" % bool(case.get("raising", True))
         if isinstance(res, str) and rebased:
-            # consequence of the re-request at the wrong URL (it may now load something, with exceptions enabled)
+            # consequence of a re-request at a wrong URL that is served (it loads something, with exceptions enabled)
             out.append(("resolveImports re-requested a kept nested @import at another URL and raised %s" % res[4:],
                         sig + " resolve-rebase"))
         elif isinstance(res, str):
             out.append(("resolveImports raised %s" % res[4:], sig + " resolve"))
-        elif res is not None:
-            exp_styles, exp_kept = flat_spec(impl["rules"])
+        elif res is not None and not rebased:
+            exp_styles, exp_kept, _ = flat_spec(impl["rules"])
             got_styles = styles_of(res)
             if got_styles != exp_styles:
                 out.append(("resolveImports: style rules %r, expected (in order, media-wrapped) %r"
@@ -617,6 +648,61 @@ def nested_kept(rules, depth=0):
     return False
 
 
+def enc_walk(case, rules, base, penc, out, sig, depth=1):
+    """loading and encoding priority for the imports of one sheet (URL `base`, encoding inherited by its imports
+    `penc`), then recursively for every loaded sheet: the importing sheet's encoding is the encoding it was read with"""
+    for r in rules:
+        if r[0] != "import" or not r[1]:
+            continue
+        try:
+            u = std_join(base, r[1])
+        except ValueError:
+            continue
+        bl = case["table"].get(u)
+        b = bl[0] if bl else ["none"]
+        if b[0] not in ("text", "bytes"):
+            if r[3]:
+                out.append(("@import %r (depth %d) is marked loaded although the fetcher gave no content" % (r[1], depth), sig))
+            continue
+        c = content_of(b)
+        d = detect(c)
+        own = [b[1], d[0] if d[1] else None, penc]
+        enc = first_truthy([case["override"]] + own + ["utf-8"])
+        ok = True
+        if b[0] == "bytes":
+            try:
+                c.decode(enc)
+            except (UnicodeDecodeError, LookupError):
+                ok = False
+        if r[3] != ok:
+            out.append(("@import %r (depth %d): hrefFound is %r, but with the priority encoding %r the answer of the "
+                        "fetcher is %s" % (r[1], depth, r[3], enc, "readable" if ok else "not readable"), sig))
+            continue
+        if not ok:
+            continue
+        if r[4] != u:
+            out.append(("imported sheet of %r (depth %d) has href %r, expected %r" % (r[1], depth, r[4], u), sig))
+            continue
+        if enc_norm(enc):
+            if b[0] == "bytes":
+                exp = mini_parse(re.sub(r'^@charset "[^"]*"', '@charset "utf-8"', c.decode(enc)))
+                pay_exp = [x[2] for x in exp["items"] if x[0] == "S"]
+                pay_got = [x[2] for x in r[5] if x[0] == "style"]
+                if pay_exp != pay_got:
+                    out.append(("bytes of %r (depth %d) were not decoded with %r (priority override > HTTP > BOM/@charset > "
+                                "importing sheet > utf-8): payloads %r, expected %r" % (r[1], depth, enc, pay_got, pay_exp), sig))
+            senc = r[5][0][1] if r[5] and r[5][0][0] == "charset" else "utf-8"
+            if senc != enc_norm(enc):
+                out.append(("imported sheet of %r (depth %d) reports encoding %r, the priority list gives %r"
+                            % (r[1], depth, senc, enc_norm(enc)), sig))
+        if depth < 6:
+            # what the imports of this sheet inherit: the encoding it was read with, else its own @charset rule
+            inherit = first_truthy(own)
+            if inherit is None and r[5] and r[5][0][0] == "charset":
+                inherit = r[5][0][1]
+            enc_walk(case, r[5], u, inherit, out, sig, depth + 1)
+
+
 def styles_of(flat, media=None):
     out = []
     for r in flat:
@@ -628,33 +714,31 @@ def styles_of(flat, media=None):
 
 
 def flat_spec(rules):
-    """the statement about resolveImports, read directly: loaded imports are replaced by their (recursively
-    flattened) rules in place, inside @media when media-restricted; imports that cannot be merged are kept"""
-    styles, kept = [], []
+    """the statement about resolveImports, read directly: (style rules in document order with the @media they end up
+    in, hrefs of the @import rules that must still be there, whether something was met that cannot stand in @media).
+    Loaded `all` imports are replaced by their flattened rules; a loaded media-restricted import becomes one @media
+    rule, unless its flattened sheet holds anything but style rules and comments (a kept @import, @namespace, another
+    @media): then the @import itself is kept; an import that is not loaded is always kept."""
+    styles, kept, blocked = [], [], False
     for r in rules:
         if r[0] == "style":
             styles.append([r[1], None])
+        elif r[0] == "ns":
+            blocked = True
         elif r[0] == "import":
             if not r[3]:
                 kept.append(r[1])
                 continue
-            sub_styles, sub_kept = flat_spec(r[5])
+            s2, k2, b2 = flat_spec(r[5])
             if r[2] == "all":
-                styles += sub_styles
-                kept += sub_kept
+                styles += s2
+                kept += k2
+                blocked = blocked or b2
+            elif b2 or k2 or any(m is not None for _, m in s2):
+                kept.append(r[1])
             else:
-                mergeable = all(x[0] in ("style", "comment", "charset") or (x[0] == "import" and x[3] and x[2] == "all"
-                                                                              and mergeable_sub(x)) for x in r[5])
-                if mergeable and not sub_kept and all(m is None for _, m in sub_styles):
-                    styles += [[s_, r[2]] for s_, _ in sub_styles]
-                else:
-                    kept.append(r[1])
-    return styles, kept
-
-
-def mergeable_sub(x):
-    return all(y[0] in ("style", "comment", "charset") or (y[0] == "import" and y[3] and y[2] == "all" and mergeable_sub(y))
-               for y in x[5])
+                styles += [[s_, r[2]] for s_, _ in s2]
+    return styles, kept, blocked
 
 
 # ------------------------------------------------------------------------------------------ generators
@@ -758,16 +842,20 @@ def gen_cases(ctx, thorough):
                         c = {"top": st([["I", "a.css", "all"], ["S", "t", "top"]], parent), "href": TOP,
                              "override": ovr, "table": {"http://h/d/a.css": [b]}}
                         cases.append(c)
-    # the same sources one level down: parent = imported sheet (its own encoding is what its imports inherit)
-    for http_o in (None, "iso-8859-1"):
-        for cs_o in (None, "iso-8859-1"):
-            for http_i in (None, "ascii"):
-                for cs_i in (None, "utf-8"):
-                    for codec in ("utf-8", "latin-1"):
-                        outer = ["bytes", http_o, st([["I", "i.css", "all"], ["S", "o", "w" + E_ACUTE]], cs_o), "latin-1"]
-                        inner = ["bytes", http_i, st([["S", "i", "v" + E_ACUTE]], cs_i), codec]
-                        cases.append({"top": st([["I", "o.css", "all"]]), "href": TOP, "override": None,
-                                      "table": {"http://h/d/o.css": [outer], "http://h/d/i.css": [inner]}})
+    # the same sources one level down: parent = imported sheet (the encoding it was READ with is what its imports
+    # inherit, also when its text carries another @charset; an explicit override reaches every depth)
+    for ovr in (None, "iso-8859-1"):
+        for okind in ("bytes", "text"):
+            for http_o in (None, "iso-8859-1"):
+                for cs_o in (None, "iso-8859-1", "utf-8"):
+                    for http_i in (None, "ascii", "utf-8"):
+                        for cs_i in (None, "utf-8"):
+                            for codec in ("utf-8", "latin-1"):
+                                so = st([["I", "i.css", "all"], ["S", "o", "w" + E_ACUTE]], cs_o)
+                                outer = ["bytes", http_o, so, "latin-1"] if okind == "bytes" else ["text", http_o, so]
+                                inner = ["bytes", http_i, st([["S", "i", "v" + E_ACUTE]], cs_i), codec]
+                                cases.append({"top": st([["I", "o.css", "all"]]), "href": TOP, "override": ovr,
+                                              "table": {"http://h/d/o.css": [outer], "http://h/d/i.css": [inner]}})
     # (4) href shapes x bases; malformed hrefs; misplaced imports; comments / @charset before the import
     for base in BASES:
         for h in HREFS + BAD_HREFS:
@@ -806,6 +894,76 @@ def gen_cases(ctx, thorough):
     return cases, n_assign
 
 
+FAIL_KINDS = [["none"], ["raise", "OSError"], ["bytes", None, None, "latin-1"], ["nonenone"], ["raise", "ValueError"],
+              ["mistyped", "intcontent"], ["raise", "IOError"], ["three"]]
+
+
+def subtrees(depth, fails, extras):
+    """import-tree nodes of depth <= `depth`: (media, outcome, children, extra) with outcome = 'text' | failure kind"""
+    out = []
+    for media in ("all", "print"):
+        for f in fails:
+            out.append((media, f, [], None))
+        for ex in extras:
+            out.append((media, "text", [], ex))
+        if depth > 1:
+            for ch in subtrees(depth - 1, fails, extras[:1]):
+                out.append((media, "text", [ch], None))
+    return out
+
+
+def tree_case(nodes, raising, subdir=False):
+    """a case from a list of top-level nodes; every sheet gets its own name, by default all in one directory (so that
+    the re-request resolveImports makes for a kept nested import reaches the same URL again)"""
+    table, counter = {}, [0]
+
+    def build(node, base, depth):
+        media, outcome, children, extra = node
+        counter[0] += 1
+        name = "n%d.css" % counter[0]
+        href = ("s%d/" % depth + name) if subdir else name
+        url = std_join(base, href)
+        if outcome == "text":
+            items = []
+            if extra == "comment":
+                items.append(["C", "c%d" % counter[0]])
+            items += [build(ch, url, depth + 1) for ch in children]
+            if extra == "ns":
+                items.append(["N", "urn:x%d" % counter[0]])
+            items.append(["S", "r%d" % counter[0], "v" + E_ACUTE])
+            table[url] = [["text", None, st(items, "utf-8" if extra == "charset" else None)]]
+        else:
+            table[url] = [fill(outcome, leaf("x"))]
+        return ["I", href, media]
+    items = [build(n, TOP, 1) for n in nodes] + [["S", "t", "top"]]
+    return {"top": st(items), "href": TOP, "override": None, "table": table, "raising": raising}
+
+
+def gen_trees(ctx, thorough):
+    fails = FAIL_KINDS if thorough else FAIL_KINDS[:4]
+    extras = [None, "ns", "charset", "comment"]
+    cases = []
+    t3 = subtrees(3, fails, extras)
+    t2 = subtrees(2, fails, extras)
+    sib = [("print", "text", [], None), ("all", "text", [], None), ("print", ["none"], [], None),
+           ("print", "text", [("all", ["raise", "OSError"], [], None)], None)]
+    for raising in (True, False):
+        for n in t3:
+            cases.append(tree_case([n], raising))
+        for n in (t2 if thorough else ctx.rng.sample(t2, min(len(t2), 30))):
+            for s_ in sib:
+                cases.append(tree_case([n, s_], raising))
+                cases.append(tree_case([s_, n], raising))
+        # two imports inside one imported sheet
+        for a in subtrees(1, fails, extras[:2]):
+            for b in subtrees(1, fails[:2], extras[:1]):
+                for media in ("all", "print"):
+                    cases.append(tree_case([(media, "text", [a, b], None)], raising))
+        for n in (t3 if thorough else ctx.rng.sample(t3, min(len(t3), 60))):
+            cases.append(tree_case([n], raising, subdir=True))
+    return cases
+
+
 CYCLE = {"top": st([["I", "top.css", "all"]]), "href": TOP, "override": None,
          "table": {TOP: [["text", None, st([["I", "top.css", "all"]])]]}}
 
@@ -819,7 +977,9 @@ def run(ctx):
     cpath = VERIF / "corpus" / "C20.json"
     corpus = json.loads(cpath.read_text()) if cpath.exists() else []
     cases, n_assign = gen_cases(ctx, thorough)
-    cases = corpus + cases
+    trees = gen_trees(ctx, thorough)
+    # every other generated case also runs resolveImports with exceptions switched off
+    cases = corpus + cases + trees + [dict(c, raising=False) for c in cases[::2]]
     impl = ctx.pool_map(run_impl, cases, procs=6, chunksize=64)
     mism, nontrivial, skipped_known = [], set(), 0
     if binary:
@@ -904,10 +1064,13 @@ def run(ctx):
                 "cases: all for 1 and 2 imports, 3 imports over the 11 documented kinds%s), nesting depth 2-3 with media, "
                 "the encoding-source table (override x HTTP x @charset x parent x byte codec x text/bytes, one and two "
                 "levels), %d href shapes x %d bases, misplaced imports, flaky fetchers (answer changes between the load "
-                "and insertRule's retry), random mixtures; plus %d urljoin pairs; non-trivial = distinct cases in which at "
+                "and insertRule's retry), random mixtures; import trees of depth <= 3 with every labelling of the nodes by "
+                "media (all / print) x outcome (loaded, failure kinds) plus @namespace/@charset/comment inside imported "
+                "sheets, siblings, sub-directories (%d tree cases); resolveImports runs with log.raiseExceptions True and "
+                "False; plus %d urljoin pairs; non-trivial = distinct cases in which at "
                 "least one @import was loaded" % (len(BEHAVIOURS) + len(EXTRA), n_assign,
                                                   "" if thorough else " sampled", len(HREFS) + len(BAD_HREFS), len(BASES),
-                                                  n_join),
+                                                  len(trees), n_join),
         "samples": [cases[len(corpus) + 3], cases[len(corpus) + n_assign + 7], cases[-1]],
         "disagreements_checked": (len(cases) + n_join) if binary else 0,
         "oracle_cases_matching_known_findings": skipped_known,
@@ -920,7 +1083,7 @@ def replay(ctx, path):
     bad = 0
     for v in rep.get("violations", []):
         w = v["witness"]
-        w = {k: w[k] for k in ("top", "href", "override", "table")}
+        w = {k: w[k] for k in ("top", "href", "override", "table", "raising") if k in w}
         i = run_impl(w)
         res = oracle(w, i)
         print("replay top=%r href=%r -> %s" % (render(w["top"]), w["href"], "; ".join(x for x, _ in res) or "holds"))
